@@ -19,6 +19,31 @@ def run(ck: Check):
             ck_.violation(f"temp dir of a re-used Lithium object is not numbered 1..k without gaps/duplicates: {nums}",
                           {"session": ctx.get("session"), "files": [n for n, _, _ in run_.temp]})
     session_universe(ck, numbering, quick=ck.tier == "quick")
+    # a temp dir given by the user that still holds numbered files of an earlier session: test i is handed prefix i and
+    # its copy is written as i-<tag> (overwriting a stale file of that name); stale files with other names are not ours
+    from runner import impl_run
+    for stale in ({"1-interesting.txt": b"old1"}, {"3-boring.txt": b"old3", "4-boring.txt": b"old4", "1-interesting.txt": b"o"},
+                  {"2-interesting.txt": b"x", "9-boring.txt": b"y", "original.txt": b"z"}):
+        for v in ("YNYNYNYN", "YYNNYY", "YNNNNNNN"):
+            data = b"a\nb\nc\nd\ne\n"
+            run_ = impl_run("minimize", {}, None, data, v, load=True, prefill=stale)
+            ck.count("stale-tempdir")
+            ck.nontrivial(("stale-tempdir", tuple(sorted(stale)), v))
+            got = {n: b for n, b, _ in run_.temp}
+            bad = []
+            for k, seen, a in run_.seen:
+                name = f"{k}-{'interesting' if a == 'Y' else 'boring'}"
+                if got.get(name) != seen:
+                    bad.append(f"{name} does not hold what test {k} saw")
+            if got.get("original") != data:
+                bad.append("'original' is not the original")
+            if not all(e.split()[2] == e.split()[1] for e in run_.events if e.startswith("T ")):
+                bad.append("a test was handed a prefix number different from its own number")
+            if run_.test_count != run_.tests:
+                bad.append(f"reported {run_.test_count} tests, ran {run_.tests}")
+            if bad:
+                ck.violation(f"minimize with a temp dir that already held {sorted(stale)} (verdicts {v}): " + "; ".join(bad[:3]),
+                             {"stale": sorted(stale), "verdicts": v, "listing": sorted(got)})
     ex.diff()
     return ck.finish(level="proof", rule=RULE + EXTRA_RULE, assumptions=ASSUME)
 
